@@ -31,6 +31,7 @@ func merge(dst, src *core.Ctx) {
 
 // Dual runs `run` as described above and records the chosen obligations in c.
 func Dual(c *core.Ctx, specs []inl.Spec, run func(c *core.Ctx)) {
+	IndexAssignments(c.Program)
 	a := core.NewCtx(c.Program, c.Prop, c.Tier)
 	run(a)
 	if clean(a) {
@@ -63,6 +64,7 @@ func Dual(c *core.Ctx, specs []inl.Spec, run func(c *core.Ctx)) {
 		merge(c, a)
 		return
 	}
+	IndexAssignments(p2)
 	b := core.NewCtx(p2, c.Prop, c.Tier)
 	run(b)
 	b.Note("verdict taken on an in-memory copy with same-package helpers inlined into the anchored functions (%d file(s) rewritten); positions refer to that copy", len(files))
